@@ -425,6 +425,90 @@ def chromRun [BEq K] (param : K → P) (wls : List K) : List P := chromRunFrom (
 
 def chromRunShared [BEq K] (param : K → P) (wls : List K) : List P := chromRunFrom (chromStepShared param) [] wls
 
+/-! ### Setter histories: a parameter is re-assigned on a used object (round 6)
+
+`phase_retardation`, `charge`, `lyot_stop`, `q`, … of `VectorVortexCoronagraph` are plain public attributes;
+`Apodizer.apodization` (the focal-plane mask and the Lyot stop of the Lyot coronagraphs) has a public setter.
+The documented protocol is: assign, then `clear_cache()` (the `Apodizer` setter does it itself).  A parameter
+is a constant **or** a function of wavelength, and an assignment may change which of the two it is.  The
+code asks `callable(parameter)` *every time an instance is made* (`_get_parameter_signature`); nothing about
+the parameter's kind is remembered from the constructor. -/
+
+/-- A parameter as the user hands it over. -/
+inductive Param (K P : Type) where
+  | const : P → Param K P
+  | fn : (K → P) → Param K P
+
+/-- `AgnosticOpticalElement.evaluate_parameter` for the wavelength argument. -/
+def Param.eval (p : Param K P) (wl : K) : P :=
+  match p with
+  | .const v => v
+  | .fn f => f wl
+
+def Param.isConst : Param K P → Bool
+  | .const _ => true
+  | .fn _ => false
+
+/-- What happens to one object: it is used at a wavelength, or its parameter is assigned
+(followed by `clear_cache()`). -/
+inductive Ev (K P : Type) where
+  | use : K → Ev K P
+  | set : Param K P → Ev K P
+
+/-- The object: the current parameter, the instance cache, and (only read by the defective variant)
+the kind the parameter had when the object was constructed. -/
+structure ObjSt (K P : Type) where
+  param : Param K P
+  cache : List (K × P)
+  builtConst : Bool
+
+def ObjSt.init (p : Param K P) : ObjSt K P := ⟨p, [], p.isConst⟩
+
+/-- One event on the object as the code runs it; `some data` = the instance data `forward` used. -/
+def setStep [BEq K] (st : ObjSt K P) : Ev K P → ObjSt K P × Option P
+  | .use wl =>
+    let r := chromStep st.param.eval st.cache wl
+    ({ st with cache := r.2 }, some r.1)
+  | .set p => ({ st with param := p, cache := [] }, none)
+
+/-- Defective variant 1 (the seeded shortcut): "is the parameter achromatic?" is decided once, in the
+constructor; an achromatic object routes every wavelength to the one instance of wavelength `w1`. -/
+def setStepFrozen [BEq K] (w1 : K) (st : ObjSt K P) : Ev K P → ObjSt K P × Option P
+  | .use wl =>
+    let r := chromStep st.param.eval st.cache (if st.builtConst then w1 else wl)
+    ({ st with cache := r.2 }, some r.1)
+  | .set p => ({ st with param := p, cache := [] }, none)
+
+/-- Defective variant 2: the assignment does not invalidate the instances that exist. -/
+def setStepNoClear [BEq K] (st : ObjSt K P) : Ev K P → ObjSt K P × Option P
+  | .use wl =>
+    let r := chromStep st.param.eval st.cache wl
+    ({ st with cache := r.2 }, some r.1)
+  | .set p => ({ st with param := p }, none)
+
+/-- The instance data used at every `use` of a history of events. -/
+def setRunFrom (stepf : ObjSt K P → Ev K P → ObjSt K P × Option P) : ObjSt K P → List (Ev K P) → List P
+  | _, [] => []
+  | st, ev :: evs =>
+    match (stepf st ev).2 with
+    | some p => p :: setRunFrom stepf (stepf st ev).1 evs
+    | none => setRunFrom stepf (stepf st ev).1 evs
+
+def setRun [BEq K] (p0 : Param K P) (evs : List (Ev K P)) : List P := setRunFrom setStep (ObjSt.init p0) evs
+
+def setRunFrozen [BEq K] (w1 : K) (p0 : Param K P) (evs : List (Ev K P)) : List P :=
+  setRunFrom (setStepFrozen w1) (ObjSt.init p0) evs
+
+def setRunNoClear [BEq K] (p0 : Param K P) (evs : List (Ev K P)) : List P :=
+  setRunFrom setStepNoClear (ObjSt.init p0) evs
+
+/-- What a *fresh* object, constructed with the parameter that is current at that moment and used only
+at that wavelength, would run with — the property's reference. -/
+def setSpec : Param K P → List (Ev K P) → List P
+  | _, [] => []
+  | p, .use wl :: evs => p.eval wl :: setSpec p evs
+  | _, .set p :: evs => setSpec p evs
+
 end VectorVortex
 
 /-! ## 4. Multi-scale phase-mask coronagraphs: level bookkeeping -/
